@@ -572,6 +572,51 @@ class Runner:
                       'first build ran {}'.format(
                           sorted(set(executed(r3)) ^ self.all_ran)[:5],
                           len(self.all_ran)))
+        elif k == 'install':
+            # `install` depends on exactly the default set: from an empty
+            # build dir it builds what `all` builds, then copies the members
+            if not c.proj.model.get('installed') or self.all_ran is None:
+                return
+            reset_build_dir(c)
+            # every world is configured with --prefix=<world>/prefix
+            stage = os.path.join(w.root, 'prefix')
+            shutil.rmtree(stage, ignore_errors=True)
+            src_before = w.snapshot('src')
+            r = c.sim.backend_run(['install'])
+            for s_ in r.steps:
+                g.add(s_)
+            c.trace.append(['install', r.status, sorted(executed(r))])
+            if not r.ok:
+                c.vio('every-goal-builds', 'install from a clean tree '
+                      'fails:\n' + r.output[-900:], {'goal=install'})
+                return
+            if w.snapshot('src') != src_before:
+                c.vio('containment', 'install changed the source tree',
+                      {'op=install'})
+                return
+            ran = {k_ for k_ in executed(r) if k_ in g.steps and
+                   any(x.startswith('build/') for x in g.steps[k_]['writes'])}
+            ran = {k_ for k_ in ran if not k_.startswith('stage/')}
+            if ran != self.all_ran:
+                c.vio('install-membership', 'install from a clean tree ran '
+                      '{} but `all` ran {}'.format(
+                          sorted(ran ^ self.all_ran)[:5], len(self.all_ran)))
+                return
+            staged = {os.path.basename(p_) for b_, _, fs in os.walk(stage)
+                      for p_ in fs}
+            for m_ in c.proj.model['installed']:
+                want = {os.path.basename(f) for f in c.outputs_named(m_)}
+                if m_ == 'man':
+                    want = {'tool.1'}
+                if want and not (want & staged):
+                    c.vio('install-membership', 'install did not place {} '
+                          '(member {}) under DESTDIR; staged: {}'.format(
+                              sorted(want), m_, sorted(staged)))
+                    return
+            c.count('install_checks')
+            reset_build_dir(c)
+            c.build([], label='all-rebuilt')
+            c.build(self.everything, label='complete-rebuilt')
         elif k == 'isolated':
             f = op[1]
             if f not in g.producer:
@@ -678,7 +723,8 @@ def run_case(seed, root, params=None):
                 op = ['build-check', goals, f]
             if do(op) or do(['null', goals]):
                 return
-        for op in (['everything'], ['sufficiency'], ['clean-rebuild']):
+        for op in (['everything'], ['sufficiency'], ['clean-rebuild'],
+                   ['install']):
             if do(op):
                 return
         for _ in range(params.get('isolated', 2)):
